@@ -8,7 +8,7 @@ for f in sorted(glob.glob(f'{V}/seeded/*/meta.json')):
 out = ["# Seeded changes and the checks that catch them", "",
        "Each directory holds `patch.diff` (applies to /repo with `git -C /repo apply`), `demo.py` (exits 0 on the unchanged",
        "library, non-zero with the change), the author's `notes.md` and `meta.json`. None of these changes is ever committed",
-       "to /repo. `tools/try_mutant.sh <abs path to patch.diff> <ID>...` applies a patch, runs the quick checks and restores /repo.", "",
+       "to /repo. `tools/try_mutant_wt.sh seeded/<Sxx> <ID>...` applies a patch in a scratch worktree of /repo's HEAD and runs the quick checks against it (`VERIF_REPO`); `tools/sweep_seeds.sh` does so for every kept change.", "",
        "| id | breaks | change | needs to manifest | quick checks that report a VIOLATION | notes |", "|---|---|---|---|---|---|"]
 for r in rows:
     det = r.get('detected_by', {})
